@@ -541,29 +541,32 @@ def utcOffsetMin (v : Bytes) : Except Err Int :=
         -- timezone() requires |offset| < 24 h
         if -1440 < off && off < 1440 then .ok off else .error (.valueError "offset must be a timedelta strictly between")
 
+/-- the six leading fields, the fraction `int(value[a:b]) * scale` (none when `a = b`) and the offset, in the order the
+    `datetime(...)` call evaluates them -/
+def stampWith (v : Bytes) (a b : Nat) (scale : Int) (off : Except Err Int) : Except Err Int :=
+  match ymdhms v with
+  | .error e => .error e
+  | .ok (Y, M, D, h, mi, s) =>
+    match (if a == b then .ok 0 else intAt v a b) with
+    | .error e => .error e
+    | .ok f =>
+      match off with
+      | .error e => .error e
+      | .ok o => mkTimestamp Y M D h mi s (f * scale) o
+
 /-- `parse_timestamp_bytes(value).timestamp()` in microseconds -/
 def parseTimestamp (v : Bytes) : Except Err Int :=
   let n := v.length
-  let frac (a b : Nat) (scale : Int) (off : Except Err Int) : Except Err Int :=
-    match ymdhms v with
-    | .error e => .error e
-    | .ok (Y, M, D, h, mi, s) =>
-      match (if a == b then .ok 0 else intAt v a b) with
-      | .error e => .error e
-      | .ok f =>
-        match off with
-        | .error e => .error e
-        | .ok o => mkTimestamp Y M D h mi s (f * scale) o
   if slice v (n - 3) n == [85, 84, 67] then
-    if n == 27 then frac 20 23 1000 (.ok 0)
-    else if n == 26 then frac 20 22 10000 (.ok 0)
-    else if n == 25 then frac 20 22 100000 (.ok 0)
-    else if n == 23 then frac 0 0 0 (.ok 0)
+    if n == 27 then stampWith v 20 23 1000 (.ok 0)
+    else if n == 26 then stampWith v 20 22 10000 (.ok 0)
+    else if n == 25 then stampWith v 20 22 100000 (.ok 0)
+    else if n == 23 then stampWith v 0 0 0 (.ok 0)
     else .error (.valueError "unexpected format")
   else
-    if n == 32 then frac 20 26 1 (utcOffsetMin v)
-    else if n == 25 then frac 0 0 0 (utcOffsetMin v)
-    else if n == 19 then frac 0 0 0 (.ok 0)
+    if n == 32 then stampWith v 20 26 1 (utcOffsetMin v)
+    else if n == 25 then stampWith v 0 0 0 (utcOffsetMin v)
+    else if n == 19 then stampWith v 0 0 0 (.ok 0)
     else .error (.valueError "unexpected format")
 
 /-- zero-padded to `n` bytes after truncation (what an `S<n>` element holds) -/
@@ -578,30 +581,34 @@ def datetimeCell (cell : Bytes) : Except Err (Int × Bytes × Bool) :=
     | .error e => .error e
     | .ok t => .ok (t, padTo 10 v, true)
 
+/-- `%m` followed by `-`: regex `(1[0-2]|0[1-9]|[1-9])-`; returns the month and the rest -/
+def strptimeMonth : Bytes → Option (Int × Bytes)
+  | a :: 45 :: r => if 49 ≤ a && a ≤ 57 then some (((a - 48 : Nat) : Int), r) else none
+  | a :: b :: 45 :: r =>
+    if a == 49 && 48 ≤ b && b ≤ 50 then some (((10 + (b - 48) : Nat) : Int), r)
+    else if a == 48 && 49 ≤ b && b ≤ 57 then some (((b - 48 : Nat) : Int), r)
+    else none
+  | _ => none
+
+/-- `%d` up to the end of the text: regex `3[01]|[12]\d|0[1-9]|[1-9]| [1-9]` -/
+def strptimeDay : Bytes → Option Int
+  | [a] => if 49 ≤ a && a ≤ 57 then some ((a - 48 : Nat) : Int) else none
+  | [a, b] =>
+    if a == 51 && (b == 48 || b == 49) then some ((30 + (b - 48) : Nat) : Int)
+    else if (a == 49 || a == 50) && isDigit b then some (((a - 48) * 10 + (b - 48) : Nat) : Int)
+    else if (a == 48 || a == 32) && 49 ≤ b && b ≤ 57 then some ((b - 48 : Nat) : Int)
+    else none
+  | _ => none
+
 /-- `datetime.strptime(text, '%Y-%m-%d')` on ASCII text: `(Y, M, D)` before range checking -/
 def strptimeYmd (v : Bytes) : Option (Int × Int × Int) :=
-  let month : Bytes → Option (Int × Bytes)
-    | a :: 45 :: r => if 49 ≤ a && a ≤ 57 then some (((a - 48 : Nat) : Int), r) else none
-    | a :: b :: 45 :: r =>
-      if a == 49 && 48 ≤ b && b ≤ 50 then some (((10 + (b - 48) : Nat) : Int), r)
-      else if a == 48 && 49 ≤ b && b ≤ 57 then some (((b - 48 : Nat) : Int), r)
-      else none
-    | _ => none
-  let day : Bytes → Option Int
-    | [a] => if 49 ≤ a && a ≤ 57 then some ((a - 48 : Nat) : Int) else none
-    | [a, b] =>
-      if a == 51 && (b == 48 || b == 49) then some ((30 + (b - 48) : Nat) : Int)
-      else if (a == 49 || a == 50) && isDigit b then some (((a - 48) * 10 + (b - 48) : Nat) : Int)
-      else if (a == 48 || a == 32) && 49 ≤ b && b ≤ 57 then some ((b - 48 : Nat) : Int)
-      else none
-    | _ => none
   match v with
   | y1 :: y2 :: y3 :: y4 :: 45 :: rest =>
     if isDigit y1 && isDigit y2 && isDigit y3 && isDigit y4 then
-      match month rest with
+      match strptimeMonth rest with
       | none => none
       | some (m, r) =>
-        match day r with
+        match strptimeDay r with
         | none => none
         | some d => some ((((y1 - 48) * 1000 + (y2 - 48) * 100 + (y3 - 48) * 10 + (y4 - 48) : Nat) : Int), m, d)
     else none
